@@ -153,10 +153,19 @@ type PoolSeqCase struct {
 	Kind int `json:"kind,omitempty"`
 }
 
+// stok is the harness's record of one item (kept apart from the item itself, so that an item the caller drops really
+// becomes garbage); items carry the serial.
 type stok struct {
 	serial  int
 	factory int
 	held    bool
+	dropped bool // handed out, then forgotten by the caller without a Put
+}
+
+// stokItem is what pointer-typed pools hand around.
+type stokItem struct {
+	Serial int
+	pad    [48]byte
 }
 
 type stokVal struct {
@@ -164,9 +173,9 @@ type stokVal struct {
 	Tag    string
 }
 
-type stokErr struct{ tk *stok }
+type stokErr struct{ Serial int }
 
-func (e *stokErr) Error() string { return fmt.Sprint("token ", e.tk.serial) }
+func (e *stokErr) Error() string { return fmt.Sprint("token ", e.Serial) }
 
 // gcAndFinalizers runs a garbage collection and waits until the finalizer goroutine has worked through what that
 // collection queued (a finalizer of our own, set just before, has run); 1..3 cycles (things that age per cycle).
@@ -189,70 +198,89 @@ func gcAndFinalizers(cycles int) {
 }
 
 func RunPoolSeq(c PoolSeqCase) pbt.Outcome {
-	reg := map[int]*stok{}
 	switch c.Kind {
 	case 1:
-		return runPoolSeq(c, reg, func(tk *stok) any { return tk }, func(v any) (*stok, bool) { tk, ok := v.(*stok); return tk, ok || v == nil })
+		return runPoolSeq(c, func(n int) any { return &stokItem{Serial: n} }, func(v any) (int, bool) {
+			if v == nil {
+				return 0, true
+			}
+			it, ok := v.(*stokItem)
+			if !ok || it == nil {
+				return 0, false
+			}
+			return it.Serial, true
+		})
 	case 2:
-		return runPoolSeq(c, reg, func(tk *stok) int { return tk.serial }, func(v int) (*stok, bool) { return reg[v], v == 0 || reg[v] != nil })
+		return runPoolSeq(c, func(n int) int { return n }, func(v int) (int, bool) { return v, v >= 0 })
 	case 3:
-		return runPoolSeq(c, reg, func(tk *stok) stokVal { return stokVal{tk.serial, "t"} }, func(v stokVal) (*stok, bool) {
-			return reg[v.Serial], v == stokVal{} || (reg[v.Serial] != nil && v.Tag == "t")
+		return runPoolSeq(c, func(n int) stokVal { return stokVal{n, "t"} }, func(v stokVal) (int, bool) {
+			return v.Serial, v == stokVal{} || (v.Serial > 0 && v.Tag == "t")
 		})
 	case 4:
-		return runPoolSeq(c, reg, func(tk *stok) error { return &stokErr{tk} }, func(v error) (*stok, bool) {
+		return runPoolSeq(c, func(n int) error { return &stokErr{n} }, func(v error) (int, bool) {
 			if v == nil {
-				return nil, true
+				return 0, true
 			}
 			e, ok := v.(*stokErr)
-			if !ok {
-				return nil, false
+			if !ok || e == nil {
+				return 0, false
 			}
-			return e.tk, true
+			return e.Serial, true
 		})
 	}
-	return runPoolSeq(c, reg, func(tk *stok) *stok { return tk }, func(v *stok) (*stok, bool) { return v, true })
+	return runPoolSeq(c, func(n int) *stokItem { return &stokItem{Serial: n} }, func(v *stokItem) (int, bool) {
+		if v == nil {
+			return 0, true
+		}
+		return v.Serial, true
+	})
 }
 
-// runPoolSeq: wrap turns a token into an item of type T, unwrap finds the token of an item (nil token = the zero
-// item; ok=false = an item that is neither a token's item nor the zero value: invented).
-func runPoolSeq[T any](c PoolSeqCase, reg map[int]*stok, wrap func(*stok) T, unwrap func(T) (*stok, bool)) pbt.Outcome {
+// runPoolSeq: mk makes the item of a serial number, serialOf reads it back (0 = the zero item; ok=false = a value that
+// is neither an item nor the zero value: invented). The harness itself keeps items only while it "holds" them.
+func runPoolSeq[T any](c PoolSeqCase, mk func(int) T, serialOf func(T) (int, bool)) pbt.Outcome {
 	var p sync2.Pool[T]
+	reg := map[int]*stok{}
 	serial, factory := 0, 0
 	install := func() {
 		factory++
 		f := factory
 		p.New = func() T {
 			serial++
-			tk := &stok{serial: serial, factory: f}
-			reg[serial] = tk
-			return wrap(tk)
+			reg[serial] = &stok{serial: serial, factory: f}
+			return mk(serial)
 		}
 	}
 	if !c.NewNil {
 		install()
-	} else {
-		// items to Put must come from somewhere: the harness makes them itself
 	}
-	var held []*stok
-	seen := map[*stok]bool{}
-	maxPooled, pooled, reused, gcs, afterGC := 0, 0, 0, 0, 0
+	type heldItem struct {
+		tk   *stok
+		item T
+	}
+	var held []heldItem
+	seen := map[int]bool{}
+	maxPooled, pooled, reused, gcs, afterGC, drops, sleeps := 0, 0, 0, 0, 0, 0, 0
 	get := func(step int) string {
 		item := p.Get()
-		tk, ok := unwrap(item)
-		if !ok {
+		n, ok := serialOf(item)
+		if !ok || (n != 0 && reg[n] == nil) {
 			return fmt.Sprintf("step %d: Get returned %#v, which was never Put and is no result of New", step, item)
 		}
-		if tk == nil {
+		if n == 0 {
 			if !c.NewNil || p.New != nil {
 				return fmt.Sprintf("step %d: Get returned the zero value although New is set", step)
 			}
 			return ""
 		}
+		tk := reg[n]
+		if tk.dropped {
+			return fmt.Sprintf("step %d: Get returned token #%d, which an earlier Get handed out and which was never Put back (its holder had just let go of it): neither a value previously Put nor a fresh result of New", step, tk.serial)
+		}
 		if tk.held {
 			return fmt.Sprintf("step %d: Get returned token #%d, which an earlier Get already handed out and which was not Put since", step, tk.serial)
 		}
-		if seen[tk] {
+		if seen[n] {
 			reused++
 			pooled--
 			if gcs > 0 {
@@ -266,17 +294,17 @@ func runPoolSeq[T any](c PoolSeqCase, reg map[int]*stok, wrap func(*stok) T, unw
 			if tk.factory != factory {
 				return fmt.Sprintf("step %d: Get returned a fresh item made by an OLD New function (factory %d, current %d): not a fresh result of New", step, tk.factory, factory)
 			}
-			seen[tk] = true
+			seen[n] = true
 		}
 		tk.held = true
-		held = append(held, tk)
+		held = append(held, heldItem{tk, item})
 		return ""
 	}
 	put := func(i int) {
-		tk := held[i]
+		h := held[i]
 		held = append(held[:i], held[i+1:]...)
-		tk.held = false
-		p.Put(wrap(tk))
+		h.tk.held = false
+		p.Put(h.item)
 		pooled++
 		if pooled > maxPooled {
 			maxPooled = pooled
@@ -309,6 +337,17 @@ func runPoolSeq[T any](c PoolSeqCase, reg map[int]*stok, wrap func(*stok) T, unw
 		case "gc":
 			gcAndFinalizers(1 + op.A%3)
 			gcs++
+		case "drop":
+			// the holder lets go of an item without putting it back: it is garbage from now on
+			if len(held) > 0 {
+				i := op.A % len(held)
+				held[i].tk.dropped = true
+				held = append(held[:i], held[i+1:]...)
+				drops++
+			}
+		case "sleep":
+			time.Sleep(time.Duration(op.A) * time.Millisecond)
+			sleeps = max(sleeps, op.A)
 		}
 	}
 	out := pbt.Outcome{Evals: len(c.Ops), NonTrivial: reused > 0 && len(c.Ops) >= 4}
@@ -330,20 +369,34 @@ func runPoolSeq[T any](c PoolSeqCase, reg map[int]*stok, wrap func(*stok) T, unw
 	if afterGC > 0 {
 		out.Labels = append(out.Labels, "pooled-item-handed-out-again-after-a-collection")
 	}
+	if drops > 0 && gcs > 0 {
+		out.Labels = append(out.Labels, "item-dropped-by-its-holder-then-collections")
+	}
+	if sleeps >= 2000 {
+		out.Labels = append(out.Labels, "pool-left-idle-for-2s")
+	} else if sleeps > 0 {
+		out.Labels = append(out.Labels, "pool-left-idle-briefly")
+	}
 	out.Labels = append(out.Labels, "item-type="+[]string{"*struct", "any", "int", "struct", "error"}[c.Kind%5])
 	return out
 }
 
 var specPoolSeq = pbt.Register(&pbt.Spec[PoolSeqCase]{
 	Property: "C18", Name: "C18.poolseq",
-	Rule: "single goroutine (no race detector: sync.Pool then keeps what is Put), Pool[T] for T in {*struct, any, int, struct by value, error}: op lists of get / put / putall / batches of up to 100 Gets / reassigning the exported New field / a garbage collection followed by the finalizers it queued; every Get must return an item that was Put or made by New (nothing else), that an item that is not currently held " +
+	Rule: "single goroutine (no race detector: sync.Pool then keeps what is Put), Pool[T] for T in {*struct, any, int, struct by value, error}: op lists of get / put / putall / batches of up to 100 Gets / reassigning the exported New field / a garbage collection followed by the finalizers it queued / the holder letting go of an item without a Put (the harness keeps only its serial number, so the item really becomes garbage) / leaving the pool idle (1 ms .. 2.1 s of wall-clock time); every Get must return an item that was Put or made by New (nothing else), that an item that is not currently held " +
 		"(never handed to two holders), and an item never seen before must be a fresh result of the New function installed at that moment (nil only when New is nil); non-trivial = some pooled item was handed out again",
 	Gen: func(t *rapid.T) PoolSeqCase {
 		withGC := rapid.IntRange(0, 4).Draw(t, "gc?") == 2
+		withSleep := rapid.IntRange(0, 24).Draw(t, "sleep?") == 12
+		longSleeps := 0
+		long2s := rapid.IntRange(0, 59).Draw(t, "2s?") == 7 // one case in ~1500 really leaves the pool idle for 2.1 s
 		op := rapid.Custom(func(t *rapid.T) POp {
-			k := rapid.SampledFrom([]string{"get", "get", "get", "put", "put", "putall", "getn", "setnew", "gc"}).Draw(t, "k")
-			if k == "gc" && !withGC {
+			k := rapid.SampledFrom([]string{"get", "get", "get", "put", "put", "putall", "getn", "setnew", "gc", "drop", "sleep"}).Draw(t, "k")
+			if (k == "gc" || k == "drop") && !withGC {
 				k = "put"
+			}
+			if k == "sleep" && !withSleep {
+				k = "get"
 			}
 			o := POp{K: k}
 			switch k {
@@ -351,6 +404,16 @@ var specPoolSeq = pbt.Register(&pbt.Spec[PoolSeqCase]{
 				o.A = rapid.IntRange(0, 50).Draw(t, "i")
 			case "gc":
 				o.A = rapid.IntRange(0, 2).Draw(t, "cycles")
+			case "drop":
+				o.A = rapid.IntRange(0, 50).Draw(t, "i")
+			case "sleep":
+				o.A = rapid.SampledFrom([]int{1, 20, 2100}).Draw(t, "ms")
+				if o.A == 2100 {
+					longSleeps++
+					if longSleeps > 1 || !long2s {
+						o.A = 3
+					}
+				}
 			case "getn":
 				o.A = rapid.SampledFrom([]int{3, 10, 33, 40, 70, 100}).Draw(t, "n")
 			}
@@ -362,3 +425,38 @@ var specPoolSeq = pbt.Register(&pbt.Spec[PoolSeqCase]{
 })
 
 func TestC18PoolSeq(t *testing.T) { pbt.Check(t, specPoolSeq) }
+
+// ---------------------------------------------------------------- Pool left idle for real time
+
+var specPoolIdle = pbt.Register(&pbt.Spec[PoolSeqCase]{
+	Property: "C18", Name: "C18.poolidle",
+	Rule: "enumerated: k items (k = 2, 9, 40) are taken and put back, the pool is left idle for 2.1 s of wall-clock time (thorough: also 5.2 s), one more Put, then k+3 Gets without Puts, for each of the five item types; " +
+		"the oracle of C18.poolseq (no item handed to two holders, nothing invented); non-trivial = always",
+	Enum: func(shard, shards int, tier string, yield func(PoolSeqCase) bool) {
+		i := 0
+		sleeps := []int{2100}
+		if tier == "thorough" {
+			sleeps = append(sleeps, 5200)
+		}
+		for _, ms := range sleeps {
+			for kind := 0; kind < 5; kind++ {
+				for _, k := range []int{2, 9, 40} {
+					if tier != "thorough" && (kind+k)%2 == 1 {
+						continue
+					}
+					i++
+					if (i-1)%shards != shard {
+						continue
+					}
+					c := PoolSeqCase{Kind: kind, Ops: []POp{{K: "getn", A: k}, {K: "putall"}, {K: "sleep", A: ms}, {K: "get"}, {K: "put"}, {K: "getn", A: k + 3}, {K: "putall"}, {K: "getn", A: 2}}}
+					if !yield(c) {
+						return
+					}
+				}
+			}
+		}
+	},
+	Run: RunPoolSeq, Exhaustive: true,
+})
+
+func TestC18PoolIdle(t *testing.T) { pbt.Check(t, specPoolIdle) }
